@@ -24,7 +24,7 @@ func init() {
 		Families: []fw.Family{
 			{Name: "trees", N: constN(2500, 80000), Gen: genModelCase, Eval: c13Eval},
 		},
-		Floors: map[string]int64{"catalogs_compared": 1500, "path_variable_sets_checked": 4000, "faulty_variants_checked": 5000},
+		Floors: map[string]int64{"catalogs_compared": 1500, "path_variable_sets_checked": 4000, "faulty_variants_checked": 8000},
 	})
 }
 
@@ -210,6 +210,11 @@ func c13Eval(t *fw.T, c *fw.Case) {
 	vs = append(vs, variant{"empty-path-object", base + "GET /zw/{q}\n  Path\n    {}\n  200 any\n"})
 	vs = append(vs, variant{"path-body-regex-type", base + "GET /zv/{q}\n  Path\n    @slug\n  200 any\n"})
 	vs = append(vs, variant{"or-with-object-type", base + "TYPE @objForOr\n  {\"a\": 1}\nGET /zt/{q}\n  Path\n    {\n      \"q\": 1 // {or: [{type: \"integer\"}, \"@objForOr\"]}\n    }\n  200 any\n"})
+	vs = append(vs, variant{"reference-to-object-type", base + "TYPE @objRef1\n  {\"a\": 1}\nGET /zs/{q}\n  Path\n    {\n      \"q\": @objRef1\n    }\n  200 any\n"})
+	vs = append(vs, variant{"reference-to-array-type", base + "TYPE @arrRef1\n  [1]\nGET /zr/{q}\n  Path\n    {\n      \"q\": @arrRef1\n    }\n  200 any\n"})
+	vs = append(vs, variant{"alias-of-object-type", base + "TYPE @objRef2\n  {\"a\": 1}\nTYPE @aliasRef2\n  @objRef2\nGET /zq/{q}\n  Path\n    {\n      \"q\": @aliasRef2\n    }\n  200 any\n"})
+	vs = append(vs, variant{"alias-in-type-list", base + "TYPE @objRef3\n  [1, 2]\nTYPE @aliasRef3\n  @objRef3\nGET /zp/{q}\n  Path\n    {\n      \"q\": @name | @aliasRef3\n    }\n  200 any\n"})
+	vs = append(vs, variant{"object-type-in-type-list", base + "TYPE @objRef4\n  {\"a\": 1}\nGET /zo/{q}\n  Path\n    {\n      \"q\": @name | @objRef4\n    }\n  200 any\n"})
 	vs = append(vs, variant{"two-path-directives", base + "GET /zu/{q}/{r}\n  Path\n    {\n      \"q\": 1\n    }\n  Path\n    {\n      \"r\": 1\n    }\n  200 any\n"})
 	for _, v := range vs {
 		dv := run.Single([]byte(v.text))
